@@ -835,6 +835,9 @@ func (env *Env) call(e *Expr) Term {
 			r = app("s.arr", x.S)
 		}
 		return mk(app(">", r, vc.get(env.old, "$alloc")), SBool)
+	case "nerrs":
+		vc.compDecl("Gerr_n", SInt)
+		return mk(vc.get(env.heap(), "Gerr_n"), SInt).withType(types.Typ[types.Int])
 	case "ncalls":
 		vc.callLogDecl()
 		return mk(vc.get(env.heap(), "Gcalls_n"), SInt).withType(types.Typ[types.Int])
@@ -862,6 +865,27 @@ func (env *Env) call(e *Expr) Term {
 			r = app("s.arr", x.S)
 		}
 		return mk(and(app("<", "0", r), app("<=", r, vc.get(oh, "$alloc"))), SBool)
+	case "rowUnchanged":
+		// rowUnchanged(T, a): the []T backing array with id a has the same contents as in the old state
+		if len(e.Args) != 2 || (e.Args[0].Op != "type" && e.Args[0].Op != "ident" && e.Args[0].Op != "sel") {
+			efail("rowUnchanged(T, a)")
+		}
+		tn := e.Args[0].Type
+		if e.Args[0].Op == "ident" {
+			tn = e.Args[0].Name
+		} else if e.Args[0].Op == "sel" {
+			tn = e.Args[0].Args[0].Name + "." + e.Args[0].Name
+		}
+		a := argT(1)
+		oh := env.old
+		if env.oldIsPre {
+			oh = env.pre
+		}
+		if oh == nil {
+			efail("rowUnchanged needs an old state")
+		}
+		comp, _ := vc.elemComp(env.resolveType(tn))
+		return mk(eq(app("select", vc.get(env.heap(), comp), a.S), app("select", vc.get(oh, comp), a.S)), SBool)
 	case "objRowUnchanged":
 		// the []object.Object backing array with id a has the same contents as in the old state
 		a := argT(0)
